@@ -170,6 +170,7 @@ func init() {
 	c10Ops = append(c10Ops,
 		c10Op{name: "render the last template again in the same engine with the same TemplateData object, continue on the second result", kind: "tplagain"},
 		c10Op{name: "AddImageFromData(format \"bmp\": not a supported format, the call is refused)", kind: "reject"},
+		c10Op{name: "two placeholders; first render with an undecodable second picture (fails), the caller repairs its TemplateData and renders again with the same engine", kind: "tplfail", img: c10P21},
 		c10Op{name: "AddHeader(default)", kind: "hdr"},
 		c10Op{name: "AddListItem", kind: "list"},
 		c10Op{name: "work on another document (build, save, reopen, render as template)", kind: "other"},
@@ -293,7 +294,11 @@ type c10Inst struct {
 	again   int
 	cfgs    map[string]*document.ImageConfig
 	rej     int
+	nfail   int
 }
+
+// c10TplFailSecond is the picture the caller puts in place of the undecodable one.
+func c10TplFailSecond() []byte { return c10ImgBytes(c10P12, 191) }
 
 func (i *c10Inst) Enabled(op int) bool {
 	o := c10Ops[op]
@@ -314,6 +319,8 @@ func (i *c10Inst) Enabled(op int) bool {
 		return i.againOK()
 	case "reject":
 		return i.rej < 2
+	case "tplfail":
+		return i.nfail < 1
 	}
 	return true
 }
@@ -501,6 +508,32 @@ func (i *c10Inst) Apply(op int) (string, []rep.Violation) {
 			i.doc = d
 			i.again++
 			i.lastNT = len(i.pics) > 0
+		case "tplfail":
+			i.doc.AddParagraph("{{#image pic}}")
+			i.doc.AddParagraph("{{#image pic2}}")
+			eng := document.NewTemplateEngine()
+			if _, e := eng.LoadTemplateFromDocument("t", i.doc); e != nil {
+				err = fmt.Errorf("LoadTemplateFromDocument: %v", e)
+				return
+			}
+			data := document.NewTemplateData()
+			data.SetImageFromData("pic", c10Payload(op), nil)
+			data.SetImageFromData("pic2", []byte("these bytes are not an image"), nil)
+			eng.RenderTemplateToDocument("t", data) // expected to fail; whatever it returns is dropped
+			data.SetImageFromData("pic2", c10TplFailSecond(), nil)
+			d, e := eng.RenderTemplateToDocument("t", data)
+			if e != nil || d == nil {
+				err = fmt.Errorf("render after the data was repaired: %v", e)
+				return
+			}
+			i.doc = d
+			for _, p := range i.pics {
+				p.Rend = true
+			}
+			i.pics = append(i.pics, &c10Pic{Place: "tpl", Via: "data", Op: op, Payload: c10Payload(op), PW: 2, PH: 1, Size: c10None, Judged: true},
+				&c10Pic{Place: "tpl", Via: "data", Op: op, Payload: c10TplFailSecond(), PW: 1, PH: 2, Size: c10None, Judged: true})
+			i.nfail++
+			i.lastNT = true
 		case "reject":
 			// a refused call must leave nothing behind (no counter, part, relationship or content type)
 			if _, e := i.doc.AddImageFromData(pngBytes(2, 1, 250), "x.bmp", document.ImageFormat("bmp"), 2, 1, nil); e == nil {
@@ -667,7 +700,7 @@ func (i *c10Inst) Key() string {
 	for _, p := range i.pics {
 		fmt.Fprintf(&b, "%s/%s/%d/%s/%s/%v;", p.Place, p.Via, p.Op, c10Hash(p.Payload), p.lived(), p.OffAtAdd)
 	}
-	fmt.Fprintf(&b, "|r%d h%d l%d last=%v first=%v again=%v/%d rej=%d|", i.reop, i.hdr, i.list, i.lastKind == "reopen", i.steps == 0, i.againOK(), i.again, i.rej)
+	fmt.Fprintf(&b, "|r%d h%d l%d last=%v first=%v again=%v/%d rej=%d fail=%d|", i.reop, i.hdr, i.list, i.lastKind == "reopen", i.steps == 0, i.againOK(), i.again, i.rej, i.nfail)
 	// the caller's configuration objects as they are now (a library that writes into them changes later calls)
 	ck := make([]string, 0, len(i.cfgs))
 	for k, c := range i.cfgs {
@@ -1135,10 +1168,11 @@ func runC10(r *rep.Run) {
 	}
 	for op, o := range c10Ops[:c10SeedBase] {
 		switch o.kind {
-		case "body", "cell", "tpl", "tplcell":
+		case "body", "cell", "tpl", "tplcell", "tplfail":
 			chk(o.name, c10Payload(op))
 		}
 	}
+	chk("second picture of the repaired data", c10TplFailSecond())
 	for si, sd := range c10Seeds {
 		for k := range sd.pics {
 			chk(fmt.Sprintf("%s#%d", sd.name, k), c10SeedPayload(si, k))
